@@ -196,25 +196,34 @@ class Artifacts:
         os.makedirs(os.path.dirname(out_path), exist_ok=True)
         cwd = {"eqlog_runtime": "eqlog-runtime", "eqlog": "eqlog"}[crate]
         tdir = os.path.join(CACHE, "mir-target-" + crate)
-        # cargo's freshness cache would skip the wrapper for workspace members: drop their fingerprints
-        for fp in glob.glob(os.path.join(tdir, "debug", ".fingerprint", "eqlog-*")):
-            if "eqlog-eqlog" in os.path.basename(fp) and crate == "eqlog":
-                continue  # the 160k-line registry-generated model: not analysed, keep it fresh
-            shutil.rmtree(fp, ignore_errors=True)
+        if crate == "eqlog":
+            # the compiler crate needs eqlog-eqlog/prebuilt/eqlog.rs, which the CLI build (feature `rebuild`) keeps current
+            self.cli()
+        # cargo's freshness cache would skip the wrapper on a warm target directory. The wrapper's path is part of the
+        # fingerprint of workspace members, so a per-tree-hash symlink makes cargo rerun exactly those through the driver.
+        wdir = os.path.join(CACHE, "wrappers", self.hash + "-" + crate)
+        for old in glob.glob(os.path.join(CACHE, "wrappers", "*")):
+            if old != wdir:
+                shutil.rmtree(old, ignore_errors=True)
+        os.makedirs(wdir, exist_ok=True)
+        wrapper = os.path.join(wdir, "verif-driver")
+        if os.path.lexists(wrapper):
+            os.remove(wrapper)
+        # a fresh name every time: the same tree hash may be analysed again after the fact file was pruned
+        wrapper = os.path.join(wdir, "verif-driver-%d" % int(time.time() * 1000))
+        os.symlink(DRIVER_BIN, wrapper)
         if os.path.exists(out_path):
             os.remove(out_path)
         sysroot = run(["rustc", "+nightly", "--print", "sysroot"], check=True).stdout.strip()
         env = {
             "LD_LIBRARY_PATH": os.path.join(sysroot, "lib"),
             "RUSTFLAGS": "-Zmir-opt-level=0 -Awarnings -Cdebug-assertions=off -Coverflow-checks=on",
-            "RUSTC_WORKSPACE_WRAPPER": DRIVER_BIN,
+            "RUSTC_WORKSPACE_WRAPPER": wrapper,
             "CARGO_TARGET_DIR": tdir,
             "VERIF_FACTS_DIR": os.path.dirname(out_path),
             "VERIF_FACTS_CRATES": crate,
         }
-        args = ["cargo", "+nightly", "check", "--offline"]
-        if crate == "eqlog":
-            args += ["--features", "rebuild", "--lib"]
+        args = ["cargo", "+nightly", "check", "--offline", "--lib"]
         t0 = time.time()
         p = run(args, cwd=os.path.join(REPO, cwd), env=env, timeout=3600)
         if p.returncode != 0:
